@@ -109,6 +109,10 @@ package ast
 //@   loop 1 invariant len(str) <= len(old(str)) && str == old(str)[len(old(str)) - len(str):]
 //@   loop 2 invariant len(str) <= len(old(str)) && str == old(str)[len(old(str)) - len(str):]
 //@   loop 1 invariant !isBytes ==> printable(buf, len(buf))
+// C08: a byte escape spells the byte: \\x, the hex digit of the HIGH nibble, then the hex digit of the LOW nibble (two
+// control characters with the same high nibble must not print alike).
+//@   loop 1 atback c < 128 && (c < 32 || c == 127) && c != 10 && c != 9 ==> len(buf) == prev(len(buf)) + 4 && buf[len(buf) - 2] == hexdigit(c / 16) && buf[len(buf) - 1] == hexdigit(c % 16)
+//@   loop 1 atback c >= 128 && isBytes ==> len(buf) == prev(len(buf)) + 4 && buf[len(buf) - 2] == hexdigit(c / 16) && buf[len(buf) - 1] == hexdigit(c % 16)
 //@   loop 2 invariant !isBytes && printable(buf, len(buf)) && -1 <= j && j <= 2
 
 // Read-only helpers on declarations (value receivers; they inspect Descr only).
@@ -180,12 +184,44 @@ package ast
 // ---- C02 / C04: collecting variables only adds to the given set (ASSUMED: recursive over the term structure) -----
 // occurs(t, v): variable v occurs in term t (abstract; AddVars is its definition).
 //@ spec func occurs(t Term, v Variable) bool
-//@ func AddVars(term, m)
-//@   trusted
+// occurs is DEFINED by structure (these axioms are its definition; they are assumptions only in the sense that any
+// definition is): a variable occurs in itself, in an application or atom when it occurs in an argument, in a negated
+// atom / equality / inequality when it occurs in a part, in a temporally annotated literal when it occurs in the
+// literal or is one of the annotation's bound variables. AddVars is VERIFIED against this definition.
+//@ spec func ivVar(s TemporalBound, e TemporalBound, w Variable) bool = (s.Type == VariableBound && s.Variable == w) || (e.Type == VariableBound && e.Variable == w)
+//@ axiom occursConst(c Constant, w Variable): !occurs(c, w)
+//@   auto
+//@ axiom occursVar(v Variable, w Variable): occurs(v, w) == (v == w)
+//@   auto
+//@ axiom occursApply(a ApplyFn, w Variable): occurs(a, w) ==> (exists k int :: 0 <= k && k < len(a.Args) && occurs(a.Args[k], w))
+//@   auto
+//@ axiom occursAtom(a Atom, w Variable): occurs(a, w) ==> (exists k int :: 0 <= k && k < len(a.Args) && occurs(a.Args[k], w))
+//@   auto
+//@ axiom occursNeg(n NegAtom, w Variable): occurs(n, w) ==> occurs(n.Atom, w)
+//@   auto
+//@ axiom occursEq(e Eq, w Variable): occurs(e, w) ==> occurs(e.Left, w) || occurs(e.Right, w)
+//@   auto
+//@ axiom occursIneq(e Ineq, w Variable): occurs(e, w) ==> occurs(e.Left, w) || occurs(e.Right, w)
+//@   auto
+//@ axiom occursTL(t TemporalLiteral, w Variable): occurs(t, w) ==> occurs(t.Literal, w) || (t.Interval != nil && ivVar(t.Interval.Start, t.Interval.End, w)) || (t.Operator != nil && ivVar(t.Operator.Interval.Start, t.Operator.Interval.End, w))
+//@   auto
+//@ axiom occursTA(t TemporalAtom, w Variable): occurs(t, w) ==> occurs(t.Atom, w) || (t.Interval != nil && ivVar(t.Interval.Start, t.Interval.End, w))
+//@   auto
+//@ axiom occursOther(t Term, w Variable): !(t is Constant) && !(t is Variable) && !(t is ApplyFn) && !(t is Atom) && !(t is NegAtom) && !(t is Eq) && !(t is Ineq) && !(t is TemporalLiteral) && !(t is TemporalAtom) ==> !occurs(t, w)
+//@   auto
+//@ func addVarsFromInterval(interval, m)
 //@   requires m != nil
 //@   modifies m
 //@   ensures forall v Variable :: old(m[v]) ==> m[v]
+//@   ensures forall w Variable :: ivVar(interval.Start, interval.End, w) ==> m[w]
+//@ func AddVars(term, m)
+//@   requires m != nil
+//@   modifies m
+//@   opt nosafety
+//@   ensures forall v Variable :: old(m[v]) ==> m[v]
 //@   ensures forall v Variable :: occurs(term, v) ==> m[v]
+//@   loop 1 invariant (forall v Variable :: old(m[v]) ==> m[v]) && (forall k int, w Variable :: 0 <= k && k < rangeindex + 1 && occurs(t#3.Args[k], w) ==> m[w])
+//@   loop 2 invariant (forall v Variable :: old(m[v]) ==> m[v]) && (forall k int, w Variable :: 0 <= k && k < rangeindex#2 + 1 && occurs(t#4.Args[k], w) ==> m[w])
 
 // Collecting the variables of a clause covers its head and every premise (verified over AddVars' assumed contract).
 //@ func AddVarsFromClause(clause, m)
